@@ -145,7 +145,13 @@ func catalogue() []reqItem {
 	for _, a := range [][]string{{"NOSUCH"}, {"NOSUCH", "a", "b"}, {""}, {"GETX", "k"}} {
 		add(mkItem("unknown|"+fmt.Sprint(len(a)), "unknown", bulkElems(a)))
 	}
-	for _, a := range [][]string{{"GET", errKey}, {"SET", errKey, "v"}, {"DEL", "a", errKey}, {"INCR", errKey}, {"HGETALL", errKey}, {"MGET", "a", errKey}, {"ZCARD", errKey}, {"LPUSH", errKey, "x"}} {
+	// arguments with line breaks and format verbs where the server quotes them in an error reply
+	for _, a := range [][]string{{"SET", "k", "v", "bo\r\ngus"}, {"NO\nSUCH", "x"}, {"RENAME", "missing\r\n", "x"}, {"EXPIRE", "k", "1\r\n2"}, {"ZADD", "z", "x\ry", "m"}, {"CONFIG", "NO\r\nSUCH"}, {"SET", "k", "v", "%s%d"}, {"NO%sSUCH"}, {"INCRBY", "k", "%d"}} {
+		add(mkItem(a[0]+"|nasty-argument", "bad", bulkElems(a)))
+	}
+	for _, a := range [][]string{{"GET", errKey}, {"SET", errKey, "v"}, {"DEL", "a", errKey}, {"INCR", errKey}, {"HGETALL", errKey}, {"MGET", "a", errKey}, {"ZCARD", errKey}, {"LPUSH", errKey, "x"},
+		{"HMGET", "h", errKey}, {"HMGET", "h", "f1", errKey, "f2"}, {"HMGET", "h", "f1", "f2", errKey}, {"MGET", errKey, "a"}, {"MSET", "a", "1", errKey, "2"}, {"HMSET", "h", "f", "1", errKey, "2"},
+		{"APPEND", errKey, "x"}, {"STRLEN", errKey}, {"HKEYS", errKey}, {"SCARD", errKey}, {"ZREVRANGE", errKey, "0", "-1"}, {"GETRANGE", errKey, "0", "1"}} {
 		add(mkItem(a[0]+"|handler-error", "handler-error", bulkElems(a)))
 	}
 	add(mkItem("QUIT|valid", "quit", bulkElems([]string{"QUIT"})))
